@@ -204,10 +204,13 @@ Print Assumptions C17_create_coexists.
    definition (Proofs/T20Rebuild.v, T20Inv.v), and it is related to the opened archive by the relation of the C16
    simulation (Proofs/T19*.v).  Hence (T19_run_sim) every later history of filesystem-level calls - absolute names, the
    root never removed or renamed onto, header-block counts >= 1 - behaves on the archive as on the twin, and what is
-   written survives a rebuild exactly.  The twin's abstract namespace IS the tree, so for archives whose regular members
-   are empty the T02 reference semantics applies from the tree; a non-empty original member loses its recorded size under
-   a metadata update (Proofs/T20Counter.v: a finding, archive and twin alike), which is why that last statement has the
-   hypothesis [empty_files].  Plain configuration (a codec suffix changes the names a rebuild stores for foreign members).
+   written survives a rebuild exactly.  The twin's abstract namespace IS the tree and the twin is a [Good] state of the T02
+   theorems, so the T02 reference semantics applies from the tree for EVERY well-formed archive (sizes below 10^40, the
+   bound of the T02 theorems): original members keep kind, size and content designation under every later call that does
+   not touch them, and metadata calls change exactly the metadata.  (Before the fix of Operations.Update / Move - the size
+   record is added to a content-less record from the known size, [keep_size] in Model/Ops.v - a non-empty original member
+   lost its recorded size under a metadata update and the statement needed [empty_files]; Proofs/T20Counter.v now holds the
+   positive facts.)  Plain configuration (a codec suffix changes the names a rebuild stores for foreign members).
    =================================================================================================== *)
 From STFS Require Import C01Fs2 C01Rows Norm T19Rel T19Main T20Twin T20Inv T20Main.
 From STFS Require T02Ns T02Spec T20Abs T20Good.
@@ -244,11 +247,15 @@ Theorem C17_twin_is_the_tree : forall c st t, wf_style st -> style_root st = [] 
   T02Ns.abs (twin c st t) = T20Abs.namespace_of c t.
 Proof. exact T20Abs.T20_twin_abs. Qed.
 
-(* archives whose regular members are empty: the twin is a [Good] state of the T02 theorems, so every history whose calls
-   meet the reference's preconditions returns the reference outcomes, started from the namespace of the tree - on the twin
-   and on the opened archive *)
+(* every well-formed archive (regular members below 10^40 bytes): the twin is a [Good] state of the T02 theorems, so every
+   history whose calls meet the reference's preconditions returns the reference outcomes and has the reference effects,
+   started from the namespace of the tree - on the twin and on the opened archive *)
+Theorem C17_twin_Good : forall c st t, plain c -> 0 < c_rs c -> wf_style st -> style_root st = [] -> wf t ->
+  T20Good.sizes_bounded t -> T02Spec.Good true c (twin c st t).
+Proof. exact T20Good.T20_twin_Good. Qed.
+
 Theorem C17_foreign_reference : forall c st t h, plain c -> 0 < c_rs c -> c_readonly c = false ->
-  wf_style st -> style_root st = [] -> wf t -> T20Good.empty_files t ->
+  wf_style st -> style_root st = [] -> wf t -> T20Good.sizes_bounded t ->
   let sr := opened c (archive_of st t) in
   let sa := twin c st t in
   T02Spec.ok_run c sa h ->
@@ -262,4 +269,5 @@ Proof. exact T20Good.T20_foreign_reference. Qed.
 Print Assumptions C17_foreign_simulates_twin.
 Print Assumptions C17_foreign_continuation.
 Print Assumptions C17_twin_is_the_tree.
+Print Assumptions C17_twin_Good.
 Print Assumptions C17_foreign_reference.
